@@ -1,0 +1,62 @@
+//go:build verif
+// +build verif
+
+package isaacstates
+
+import (
+	"context"
+
+	"github.com/spikeekips/mitum/base"
+	"github.com/spikeekips/mitum/isaac"
+	"github.com/spikeekips/mitum/util"
+)
+
+// VerifBallotHandler is a bare baseBallotHandler (consensus state) wired to a
+// ballot broadcaster; it exposes the prepare-ballot paths, which look the
+// ballot up in the ballot pool before signing a new one.
+type VerifBallotHandler struct {
+	h *baseBallotHandler
+}
+
+func VerifNewBallotHandler(
+	networkID base.NetworkID,
+	local base.LocalNode,
+	bb BallotBroadcaster,
+	proposalSelect isaac.ProposalSelectFunc,
+	vote func(base.Ballot) (bool, error),
+) *VerifBallotHandler {
+	args := newBaseBallotHandlerArgs()
+	args.ProposalSelectFunc = proposalSelect
+	args.SuffrageVotingFindFunc = func(context.Context, base.Height, base.Suffrage) (
+		[]base.SuffrageExpelOperation, error,
+	) {
+		return nil, nil
+	}
+
+	h := newBaseBallotHandlerType(StateConsensus, networkID, local, &args)
+	h.args.VoteFunc = vote // NOTE without the suffrage check of preventVotingWithEmptySuffrage
+	h.ballotBroadcaster = bb
+	h.ctx = context.Background()
+
+	return &VerifBallotHandler{h: &h}
+}
+
+func (v *VerifBallotHandler) MakeINITBallot(
+	ctx context.Context, point base.Point, prevBlock util.Hash, vp base.Voteproof,
+) (base.INITBallot, error) {
+	return v.h.makeINITBallot(ctx, point, prevBlock, vp, nil, 0)
+}
+
+func (v *VerifBallotHandler) MakeACCEPTBallot(
+	ivp base.INITVoteproof, newBlock util.Hash,
+) (base.ACCEPTBallot, error) {
+	return v.h.makeACCEPTBallot(ivp, newBlock, nil)
+}
+
+func (v *VerifBallotHandler) MakeSuffrageConfirmBallot(vp base.Voteproof) (base.INITBallot, error) {
+	return v.h.makeSuffrageConfirmBallot(vp)
+}
+
+func (v *VerifBallotHandler) Vote(bl base.Ballot) (bool, error) {
+	return v.h.vote(bl)
+}
